@@ -102,6 +102,14 @@ CHECKS = {
             'original columns are untouched, and scores through mixed_rank_graph equal those of an explicit injective tuple encoding.',
             '64-bit hash collisions are ignored (probability < 1e-12 per run). Pairs scored under the self-pair rule in one frame only are excluded.',
             'DESIGN.md §3 C10'),
+    'C11': ('Hypothesis frames x flag subsets: invariants (prefix preservation, one value per row) + per-rule recomputation, on each constructor and on the frame captured by a spy at the scorer',
+            'Exploration: generated string frames (multi-value cells with empty/repeated tokens and missing symbols, values containing '
+            '"&"/"AND"/"-") go through each constructor directly and through compute_batch_ranking with generated flag subsets; the frame '
+            'handed to mixed_rank_graph is captured; originals must be an unchanged prefix, every new column must have one value per row, '
+            'MULTIEX / SUBFEATURE columns are recomputed from the stated rules (two-sided: name templates and indicators), CONTROL-target '
+            'must replicate the label.',
+            'Content of interaction / transformed columns is decided by C10 / C12. Non-default indexes are outside the callers contract.',
+            'DESIGN.md §3 C11'),
 }
 
 NOT_YET = 'check not built yet in this commit (work in progress; planned in DESIGN.md §3)'
